@@ -621,12 +621,29 @@ class World:
             ex.assume(z3.And(n >= 0, (n > 0) == t[ex.to_z3(args[0], E)]))
             return V(n, INT)
         if name == 'sort' and ty.listlike:
-            return None     # order is abstracted
+            # order is abstracted, but the sort key is remembered: [0] / [-1] of a list sorted by key f are a
+            # minimal / maximal element with respect to f
+            key = kwargs.get('key')
+            if isinstance(key, Lam) and isinstance(recv.loc, BoxLoc):
+                ex.st.ghost['sortkey:%s' % recv.loc.bid] = (key, bool(kwargs.get('reverse', False)))
+            return None
         if name == '__getitem__' and ty.listlike:
             # order abstracted: any member
             ex.maybe_raise('IndexError', t == ty.empty(), line)
             x = ex.fresh('elem', E)
             ex.assume(t[x])
+            sk = ex.st.ghost.get('sortkey:%s' % recv.loc.bid) if isinstance(recv.loc, BoxLoc) else None
+            if sk is not None and not ex.is_sym(args[0]) and args[0] in (0, -1):
+                lam, rev = sk
+                want_max = (args[0] == -1) != rev
+                y = z3.Const(ex.path.fresh_name('qy'), E.sort())
+                ex.no_fork = getattr(ex, 'no_fork', 0) + 1
+                try:
+                    fx = ex._num(ex.apply_lam(lam, [ex.wrap(x, E)]))
+                    fy = ex._num(ex.apply_lam(lam, [ex.wrap(y, E)]))
+                finally:
+                    ex.no_fork -= 1
+                ex.st.qh.append(QHyp([y], z3.Implies(t[y], fy <= fx if want_max else fx <= fy), 'sorted.extreme'))
             return ex.wrap(x, E)
         if name == 'pop' and ty.listlike:
             if not getattr(ty, 'dups_ok', False):
